@@ -4,8 +4,16 @@
 // ---------------------------------------------------------------------------------------------
 pub open spec fn empty_para() -> Tree { node(PARAGRAPH, Seq::empty()) }
 pub open spec fn is_para(t: Tree) -> bool { t is Node && rowan::tree_kind(t) == PARAGRAPH }
-/// a blank-line child (whatever whitespace it holds)
-pub open spec fn is_blank(t: Tree) -> bool { rowan::tree_kind(t) == EMPTY_LINE }
+/// an EMPTY_LINE child: the parser makes one for every blank line *and* for every comment line outside a paragraph
+pub open spec fn is_el(t: Tree) -> bool { rowan::tree_kind(t) == EMPTY_LINE }
+/// a blank line proper: an EMPTY_LINE node that ends in a NEWLINE token and holds no comment
+pub open spec fn is_blank(t: Tree) -> bool {
+    &&& t is Node
+    &&& rowan::tree_kind(t) == EMPTY_LINE
+    &&& rowan::tree_children(t).len() > 0
+    &&& rowan::tree_kind(rowan::tree_children(t).last()) == NEWLINE
+    &&& forall|i: int| 0 <= i < rowan::tree_children(t).len() ==> rowan::tree_kind(#[trigger] rowan::tree_children(t)[i]) != COMMENT
+}
 pub open spec fn ch_paras(ch: Seq<Tree>) -> Seq<Tree> { kind_filter(rowan::child_nodes(ch), PARAGRAPH) }
 pub open spec fn para_positions(ch: Seq<Tree>) -> Seq<int> { kind_positions(ch, PARAGRAPH) }
 /// the type invariant of a Deb822 handle used here: it points at a node and no *token* child carries the kind PARAGRAPH
@@ -36,19 +44,19 @@ pub open spec fn insert_post(o: Tree, f: Tree, p: int, before: bool, ins: Seq<Tr
     &&& ins_shape(ins, before)
     &&& (ch_paras(ch).len() > 0 ==> ins.len() == 2)
 }
-/// f is o without the children s..q, all of which are blank lines
+/// f is o without the children s..q, all of which are EMPTY_LINE children
 pub open spec fn blanks_removed(o: Tree, f: Tree, s: int, q: int) -> bool {
     let ch = rowan::tree_children(o);
     &&& 0 <= s <= q <= ch.len()
-    &&& forall|j: int| s <= j < q ==> is_blank(#[trigger] ch[j])
+    &&& forall|j: int| s <= j < q ==> is_el(#[trigger] ch[j])
     &&& f == node(rowan::tree_kind(o), ch.take(s) + ch.skip(q))
 }
-/// f is o without the paragraph at child p and the blank lines p+1..q after it; every other child is the same tree
+/// f is o without the paragraph at child p and the EMPTY_LINE children p+1..q after it; every other child is the same tree
 pub open spec fn para_removed(o: Tree, f: Tree, p: int, q: int) -> bool {
     let ch = rowan::tree_children(o);
     &&& 0 <= p < q <= ch.len()
     &&& is_para(ch[p])
-    &&& forall|j: int| p < j < q ==> is_blank(#[trigger] ch[j])
+    &&& forall|j: int| p < j < q ==> is_el(#[trigger] ch[j])
     &&& f == node(rowan::tree_kind(o), ch.take(p) + ch.skip(q))
 }
 
@@ -231,7 +239,7 @@ pub proof fn lemma_insert_paras(ch: Seq<Tree>, p: int, ins: Seq<Tree>, before: b
 pub proof fn lemma_remove_paras(ch: Seq<Tree>, p: int, q: int, j: int)
     requires
         0 <= p < q <= ch.len(), is_para(ch[p]),
-        forall|x: int| p < x < q ==> is_blank(#[trigger] ch[x]),
+        forall|x: int| p < x < q ==> is_el(#[trigger] ch[x]),
         ch_paras(ch.take(p)).len() == j,
     ensures
         0 <= j < ch_paras(ch).len(),
@@ -243,7 +251,7 @@ pub proof fn lemma_remove_paras(ch: Seq<Tree>, p: int, q: int, j: int)
     lemma_ch_paras_add(a, seq![ch[p]]);
     lemma_ch_paras_one(ch[p]);
     lemma_ch_paras_add(a, c);
-    assert forall|x: int| p + 1 <= x < q implies !is_para(#[trigger] ch[x]) by { assert(is_blank(ch[x])); }
+    assert forall|x: int| p + 1 <= x < q implies !is_para(#[trigger] ch[x]) by { assert(is_el(ch[x])); }
     lemma_skip_nonparas(ch, p + 1, q);
     let pa = ch_paras(a); let pb = ch_paras(b);
     assert((pa + seq![ch[p]] + pb).remove(j) =~= pa + pb);
